@@ -10,7 +10,7 @@ from __future__ import annotations
 from typing import Any, List
 
 from semantiva.context_processors import ContextType
-from semantiva.data_io import PayloadSource
+from semantiva.data_io import DataSource, PayloadSource
 from semantiva.data_processors import DataOperation, DataProbe  # noqa: F401
 from semantiva.examples.test_utils import (
     FloatDataCollection,
@@ -101,6 +101,39 @@ class VSumModel(_FittingModel):
 
     def __str__(self):
         return f"VSumModel(offset={self.offset})"
+
+
+class VNapScale(FloatOperation):
+    """data * factor; LATER sweep steps (larger factor) finish sooner: whatever evaluates steps side by side returns them
+    out of order unless it restores the step order."""
+
+    def _process_logic(self, data, factor: float = 1.0):
+        import time as _t
+        _t.sleep(max(0.0, 0.04 - 0.01 * float(factor)))
+        return FloatDataType(data.data * factor)
+
+
+class VNapProbe(FloatProbe):
+    """Probe with the same timing profile as VNapScale."""
+
+    def _process_logic(self, data, factor: float = 1.0):
+        import time as _t
+        _t.sleep(max(0.0, 0.04 - 0.01 * float(factor)))
+        return data.data * factor
+
+
+class VNapSource(DataSource):
+    """Source with the same timing profile as VNapScale."""
+
+    @classmethod
+    def _get_data(cls, a: float = 1.0):
+        import time as _t
+        _t.sleep(max(0.0, 0.04 - 0.01 * float(a)))
+        return FloatDataType(10.0 * float(a))
+
+    @classmethod
+    def output_data_type(cls):
+        return FloatDataType
 
 
 class VKwScale(FloatOperation):
